@@ -36,8 +36,7 @@ OnLink(a, ifs, idx) == \E ia \in IfAddrs(ifs, idx) : ia.v4 = a.v4 /\ SameNet(a.o
 
 (* addresses a registration publishes (automatic addressing follows the     *)
 (* interface table)                                                         *)
-EffAddrs(g, ifs) == IF g.auto THEN {[ip |-> a.ip, o |-> a.o, v4 |-> a.v4] : a \in AllIfAddrs(ifs)}
-                    ELSE Range(g.addrs)
+EffAddrs(g, ifs) == Range(g.addrs) \cup (IF g.auto THEN {[ip |-> a.ip, o |-> a.o, v4 |-> a.v4] : a \in AllIfAddrs(ifs)} ELSE {})
 (* C18/C06: the addresses of g that belong on interface idx                 *)
 Link(g, ifs, idx) == {a \in EffAddrs(g, ifs) : OnLink(a, ifs, idx)}
 LinkFam(g, ifs, idx, v4) == {a \in Link(g, ifs, idx) : a.v4 = v4}
